@@ -202,12 +202,20 @@ def cases(ctx):
                           R(0, 1, [F("Q", [R(1, 2, [F("y"), F("Y")])])])]),
              ctcs=[("c0", spec.OP("IMPLIES", spec.T("Ab"), spec.T("aB"))), ("c1", spec.OP("IMPLIES", spec.T("aB"), spec.T("Ab")))]),
     ]
+    # relations whose children's names concatenate alike ('a b' vs {a, b}); a constraint stated twice
+    twins.append(dict(root=F("P", [R(1, 1, [F("a b")]), R(1, 1, [F("a"), F("b")]), R(0, 1, [F("b c")]), R(0, 1, [F("b"), F("c")]) if False else R(0, 1, [F("c"), F("d")])]),
+                      ctcs=[("c0", spec.OP("IMPLIES", spec.T("a"), spec.T("b"))), ("c1", spec.OP("IMPLIES", spec.T("b"), spec.T("c"))),
+                            ("c2", spec.OP("IMPLIES", spec.T("a"), spec.T("b")))]))
     for m in twins:
         yield "twins-self", m, copy.deepcopy(m)
         for k in range(6):
             yield "twins-permuted", m, permuted(m, g.rng)
         for kind, m2 in edits(m, g.rng, g):
             yield "twins-edit-" + kind, m, m2
+        if len(m["ctcs"]) >= 3:
+            mb = copy.deepcopy(m)
+            mb["ctcs"][2] = ("c2", m["ctcs"][1][1])
+            yield "twins-ctc-multiplicity", m, mb
     for i in range(n):
         size = g.rng.choice([1, 2, 4, 7, 12]) if tier == "quick" else g.rng.choice([1, 3, 8, 20, 60])
         m = g.model(size, kinds=kinds, ctc_depth=2, name_classes=("plain", "space", "keyword", "punct", "lead"))
@@ -224,6 +232,13 @@ def cases(ctx):
         for kind, m2 in edits(m, g.rng, g):
             yield "edit-" + kind, m, m2
             yield "edit-" + kind + "-permuted", m, permuted(m2, g.rng)
+        # the same set of distinct constraints with different multiplicities
+        if len(m["ctcs"]) >= 2:
+            ma, mb = copy.deepcopy(m), copy.deepcopy(m)
+            ma["ctcs"].append(("dupA", m["ctcs"][0][1]))
+            mb["ctcs"].append(("dupB", m["ctcs"][1][1]))
+            yield "ctc-multiplicity", ma, mb
+            yield "ctc-multiplicity-permuted", ma, permuted(mb, g.rng)
 
 
 def run(ctx):
